@@ -196,6 +196,10 @@ def load_known(pid):
 def run_plan(mod, plan, ctx, known_names):
     """Returns None if the property held (or a listed known finding matched)."""
     restore_globals()
+    trace = os.environ.get("VERIF_TRACE_PLAN")
+    if trace:           # debugging aid for interpreter crashes: the plan about to run
+        with open(trace, "w") as f:
+            f.write(plan_json(plan))
     try:
         mod.check(plan, ctx)
     except Violation as v:
@@ -331,6 +335,16 @@ def run_replays(mod, pid, ctx, known):
         plan = dec(doc["plan"])
         n += 1
         kf = known_by_witness.get(rel)
+        if doc.get("isolate"):
+            # a plan that used to crash the interpreter is replayed in its own process
+            r = subprocess.run([sys.executable, os.path.join(ROOT, "check"), pid, "--replay", rel, "--no-known"],
+                               capture_output=True, text=True)
+            if r.returncode != 0:
+                what = "the interpreter crashed while running this plan" if r.returncode < 0 else \
+                    ([l for l in r.stdout.splitlines() if l.startswith("detail:")] or ["replay failed"])[0]
+                violations.append({"plan": enc(plan), "what": what, "detail": {"exit": str(r.returncode)},
+                                   "replay": os.path.join(ROOT, rel)})
+            continue
         try:
             run_plan(mod, plan, ctx, [])
         except Violation as v:
@@ -523,29 +537,36 @@ def _main(args, pid, seed_base, t0, work):
         pending = ThreadPool(1).apply_async(extra_leg, (tier, seed_base, ctx, known_names, work))
 
     # 3. generated search
+    # The search always runs in worker interpreters (one per shard) so that a crash of the
+    # interpreter inside the code under test is reported with the plan that caused it.
     nshards = args.shards or NSHARDS[tier]
-    if nshards == 1:
-        results.append(search(mod, tier, seed_base * 1000, ncases, budget, ctx, known_names))
-    else:
-        procs = []
-        check = os.path.join(ROOT, "check")
-        for k in range(nshards):
-            out = os.path.join(work, f"shard{k}.json")
-            cmd = [sys.executable, check, pid, "--tier", tier, "--shard", str(k), "--shard-out", out,
-                   "--cases", str(ncases), "--time", str(budget)]
-            if args.no_known:
-                cmd.append("--no-known")
-            log = open(os.path.join(work, f"shard{k}.log"), "w")
-            procs.append((k, out, log, subprocess.Popen(cmd, stdout=log, stderr=subprocess.STDOUT)))
-        for k, out, log, p in procs:
-            p.wait()
-            log.close()
-            if not os.path.exists(out):
-                print(open(os.path.join(work, f"shard{k}.log")).read()[-3000:])
-                print(f"harness: shard {k} of {pid} produced no result (exit {p.returncode})")
-                return 2
-            with open(out) as f:
-                results.append(json.load(f))
+    procs = []
+    check = os.path.join(ROOT, "check")
+    for k in range(nshards):
+        out = os.path.join(work, f"shard{k}.json")
+        trace = os.path.join(work, f"shard{k}.trace")
+        cmd = [sys.executable, check, pid, "--tier", tier, "--shard", str(k), "--shard-out", out,
+               "--cases", str(ncases), "--time", str(budget)]
+        if args.no_known:
+            cmd.append("--no-known")
+        log = open(os.path.join(work, f"shard{k}.log"), "w")
+        env = dict(os.environ, VERIF_TRACE_PLAN=trace)
+        procs.append((k, out, trace, log, subprocess.Popen(cmd, stdout=log, stderr=subprocess.STDOUT, env=env)))
+    for k, out, trace, log, p in procs:
+        p.wait()
+        log.close()
+        if not os.path.exists(out):
+            if p.returncode < 0 and os.path.exists(trace):
+                with open(trace) as f:
+                    crashed = json.load(f)
+                violations.append({"plan": crashed, "what": "the interpreter crashed while running this plan",
+                                   "detail": {"signal": str(-p.returncode)}})
+                continue
+            print(open(os.path.join(work, f"shard{k}.log")).read()[-3000:])
+            print(f"harness: shard {k} of {pid} produced no result (exit {p.returncode})")
+            return 2
+        with open(out) as f:
+            results.append(json.load(f))
 
     if pending is not None:
         r = pending.get()
